@@ -199,7 +199,7 @@ class ExprInterp(Interp):
         toks, p = st.tokens, st.pos
         t = toks[p] if p < len(toks) else ('end',)
         t2 = toks[p + 1] if p + 1 < len(toks) else ('end',)
-        lex = Sym('lexeme', p)
+        lex = Sym('lexeme', p, t[1] if (t[0] == 'num' and len(t) > 1) else (t2[1] if (t2[0] == 'num' and len(t2) > 1) else None))
         if kind in ('binary_op', 'unary_op'):
             if t[0] == 'op' and t[1] in self.lang[rname]:
                 return TMatch(rname, st, 1, {1: t[1]})
@@ -271,8 +271,18 @@ class ExprInterp(Interp):
         if name == 'len' and args and isinstance(args[0], AStream):
             return Sym('len', args[0])
         if name in ('float', 'int') and args and isinstance(args[0], Sym):
+            if name == 'int' and args[0].kind == 'lexeme' and len(args[0].args) > 1 and args[0].args[1] in ('dot', 'exp', 'dotexp'):
+                raise RaiseSig('ValueError', ('invalid literal for int() with base 10',), e)
             return Sym(name, args[0])
         return NotImplemented
+
+    def compare(self, op, a, b, node):
+        if isinstance(op, (ast.In, ast.NotIn)) and isinstance(b, Sym) and b.kind == 'lexeme' and isinstance(a, str) and len(b.args) > 1 and b.args[1] is not None:
+            has = {'int': '', 'dot': '.', 'exp': 'eE', 'dotexp': '.eE'}[b.args[1]]
+            if a in ('.', 'e', 'E'):
+                r = a in has or (a in 'eE' and 'e' in has)
+                return r if isinstance(op, ast.In) else not r
+        return super().compare(op, a, b, node)
 
     def truth(self, v, node=None):
         if isinstance(v, TMatch):
